@@ -464,6 +464,28 @@ def value_matrix(variables) -> np.ndarray:
     return np.column_stack([c if len(c) == k else np.full(k, c[-1]) for c in cols])
 
 
+def all_outputs_scalar(engine, rows):
+    """the cause of the known finding fld:all-scalar-outputs-raise, checked explicitly on the batch (Engine.process, not the
+    exporter): after processing the k > 1 rows at once EVERY output variable holds a 0-d value because it is disabled or
+    its fuzzy output is empty / has only 0-d degrees (no rule that depends on the inputs concludes on it)"""
+    e = copy.deepcopy(engine)
+    e.restart()
+    m = np.array(rows, dtype=float).reshape(len(rows), len(e.input_variables))
+    with np.errstate(all="ignore"):
+        for i, iv in enumerate(e.input_variables):
+            iv.value = m[:, i].copy()
+        e.process()
+    if not (len(rows) > 1 and bool(e.output_variables) and all(np.ndim(ov.value) == 0 for ov in e.output_variables)):
+        return False
+    if all(not ov.enabled or all(np.ndim(a.degree) == 0 for a in ov.fuzzy.terms) for ov in e.output_variables):
+        return True
+    # per-row degrees but a 0-d value: an integral defuzzifier of resolution 1 on a batch (C02's recorded finding
+    # batch:resolution-1: the (k, 1) sample matrix is squeezed and read as ONE row) -- neither this finding nor a new one
+    if all(not ov.enabled or all(np.ndim(a.degree) == 0 for a in ov.fuzzy.terms) or getattr(ov.defuzzifier, "resolution", None) == 1 for ov in e.output_variables):
+        return None
+    return False
+
+
 def close_printed(token: str, y: float, d: int) -> bool:
     try:
         t = float(token)
@@ -903,8 +925,21 @@ def engine_part(ctx, fl, verdict, stats):
     n_forced = 6  # in every run: >= 2 output variables, the first one disabled (a 0-d value next to per-row vectors), several rows
     for case in range(ctx.n(60, 600)):
         forced = case < n_forced
+        scalar_case = None if not (n_forced <= case < n_forced + 4) else ("outputs-disabled" if case % 2 == 0 else "blocks-disabled")
         for _attempt in range(40):
             desc = E.gen_engine(rng, profile="algebraic", activations=("General",), weighted=True)
+            if scalar_case:  # the known finding, in every run: every output value 0-d on a grid of several rows
+                for o_ in desc["outputs"]:
+                    if scalar_case == "outputs-disabled":
+                        o_["enabled"] = False
+                for b_ in desc["blocks"]:
+                    if scalar_case == "blocks-disabled":
+                        b_["enabled"] = False
+                try:
+                    scalar_rows(E.build_engine(fl, desc), [E.gen_row(rng, desc) for _ in range(3)])
+                    break
+                except Exception:  # noqa
+                    continue
             if not forced:
                 break
             if len(desc["outputs"]) < 2:
@@ -953,7 +988,9 @@ def engine_part(ctx, fl, verdict, stats):
         sep = rng.choice(SEPARATORS)
         hdr, xi, xo = (rng.random() < 0.7, rng.random() < 0.85, rng.random() < 0.9)
         d = rng.choice(DECIMALS)
-        if forced:
+        if scalar_case:
+            xi = True
+        if forced or scalar_case:
             flags, active, xo = [True] * n, set(ivs), True
             is_all, v = (True, rng.randint(2**n, 16)) if rng.random() < 0.5 else (False, rng.randint(2, max(2, int(16 ** (1.0 / n)))))
         lit = E.lit_engine(fl, desc, engine)  # the state the export starts from
@@ -990,11 +1027,25 @@ def engine_part(ctx, fl, verdict, stats):
                     grid_only.write_from_scope(b2, io.StringIO(), v, S.AllVariables if is_all else S.EachVariable, {iv for iv, f in zip(b2.input_variables, flags) if f})
                 rows = grid_only.captured.tolist()
                 scalar_rows(before, rows)
-                fine = len(rows) == 1 or batch_has_vector_output(before, rows)
-                stats["cls_engine_all_scalar_outputs_raise"] += not fine
+                fine = True
+                known_cause = all_outputs_scalar(before, rows) if (xi and xo) else False
             except Exception:  # noqa
-                fine = False
-            if fine:
+                fine = known_cause = False
+            if fine and known_cause is None:
+                stats["cls_engine_resolution1_batch_raise"] += 1  # C02's finding batch:resolution-1; stays in the model comparison
+            elif fine and known_cause:
+                # known finding: np.hstack of the (k, n) input matrix with the (1, m) output matrix; the model predicts the same
+                # error, so the case stays in the model comparison below
+                stats["cls_engine_all_scalar_outputs_raise"] += 1
+                stats["oracle_violations"] += 1
+                verdict.add_violation(
+                    "fld:all-scalar-outputs-raise",
+                    f"FldExporter(separator={sep!r}, headers={hdr}, input_values={xi}, output_values={xo}).to_string_from_scope(engine, values={v}, scope={'AllVariables' if is_all else 'EachVariable'}) raises "
+                    f"{type(raised).__name__}: {raised} although the restarted engine processes the {len(rows)} grid rows one after the other: every output value is 0-d "
+                    f"(output variables enabled: {[bool(ov.enabled) for ov in ovs]}, rule blocks enabled: {[bool(b.enabled) for b in before.rule_blocks]}); {what}; engine:\n{fl.FllExporter().to_string(before)}",
+                    {"kind": "engine-raises", "engine": fl.FllExporter().to_string(before), "v": v, "all": is_all, "separator": sep, "headers": hdr, "inputs": xi, "outputs": xo, "active": flags},
+                )
+            elif fine:
                 verdict.add_violation(
                     "fld:export-raises",
                     f"FldExporter(separator={sep!r}, headers={hdr}, input_values={xi}, output_values={xo}).to_string_from_scope(engine, values={v}, scope={'AllVariables' if is_all else 'EachVariable'}) raises "
